@@ -200,6 +200,21 @@ pub static SHUTTLE_CMD: ::std::sync::Mutex<Option<CmdFn>> = ::std::sync::Mutex::
 #[cfg(n2_verif_shuttle)]
 pub static SHUTTLE_ARGS: ::std::sync::Mutex<Vec<String>> = ::std::sync::Mutex::new(Vec::new());
 
+/// Engine E2: called right after the display has been told that a task started
+/// (kind 0) and right before it is told that the task finished (kind 1).
+#[cfg(n2_verif_shuttle)]
+pub type TaskEventFn = fn(&str, u8);
+#[cfg(n2_verif_shuttle)]
+pub static SHUTTLE_TASK_EVENT: ::std::sync::Mutex<Option<TaskEventFn>> =
+    ::std::sync::Mutex::new(None);
+#[cfg(n2_verif_shuttle)]
+fn shuttle_task_event(build: &Build, kind: u8) {
+    let f = *SHUTTLE_TASK_EVENT.lock().unwrap();
+    if let Some(f) = f {
+        f(build.cmdline.as_deref().unwrap_or(""), kind);
+    }
+}
+
 #[cfg(n2_verif_shuttle)]
 pub fn sim_command(
     cmdline: &str,
@@ -272,7 +287,9 @@ impl<'a> Progress for Tee<'a> {
     }
     fn task_started(&self, id: BuildId, build: &Build) {
         with_host(|h| h.on_task_started(idx(id), build.cmdline.as_deref().unwrap_or("")));
-        self.0.task_started(id, build)
+        self.0.task_started(id, build);
+        #[cfg(n2_verif_shuttle)]
+        shuttle_task_event(build, 0);
     }
     fn task_output(&self, id: BuildId, line: Vec<u8>) {
         self.0.task_output(id, line)
@@ -286,6 +303,8 @@ impl<'a> Progress for Tee<'a> {
                 &result.output,
             )
         });
+        #[cfg(n2_verif_shuttle)]
+        shuttle_task_event(build, 1);
         self.0.task_finished(id, build, result)
     }
     fn log(&self, msg: &str) {
